@@ -16,6 +16,9 @@ Section FrameTx.
   Hypothesis Hph : forall c a i d, R c (put_holding_delta c a i d).
   Hypothesis Hpp : forall c a i d, R c (put_params_delta c a i d).
   Hypothesis Hcr : forall c i v, R c (set_creatable c i v).
+  Hypothesis Haux : forall c l', aux_eq (c_top c) l' -> R c (set_top c l').
+  Hypothesis Hsb : forall E app clear script c, same_below c (fst (run_script E app clear script c)).
+  Hypothesis Hcommit : forall c c1, same_below (child c) c1 -> R (child c) c1 -> R c (commit c1).
   Hypothesis Haddtx : forall c t l s le, R c (addtx c t l s le).
 
   Local Notation keeps := (keeps R).
@@ -30,7 +33,7 @@ Section FrameTx.
       | |- EvalCowProofs.keeps _ (m_checkdup _ _ _ _ _) => apply (keeps_checkdup R Hrefl)
       | |- EvalCowProofs.keeps _ (when _ _) => apply (keeps_when R Hrefl)
       | |- EvalCowProofs.keeps _ m_counter => apply (keeps_counter R Hrefl)
-      | |- EvalCowProofs.keeps _ (apply_transaction _ _ _) => apply (keeps_apply_transaction R Hrefl Htrans Hput Hfee Hph Hpp Hcr)
+      | |- EvalCowProofs.keeps _ (apply_transaction _ _ _) => apply (keeps_apply_transaction R Hrefl Htrans Hput Hfee Hph Hpp Hcr Haux Hsb Hcommit)
       end.
 
   Lemma keeps_addtx t l s le : keeps (m_addtx t l s le).
@@ -58,17 +61,27 @@ End FrameTx.
 
 (* ------------------------------------------------------------------ child isolation *)
 (* parents and base are never written by anything that runs inside a group *)
-Definition same_below (c c' : cow) : Prop :=
-  c_parents c' = c_parents c /\ c_base c' = c_base c.
+Ltac sb_side :=
+  intros;
+  first [ apply same_below_refl
+        | (eapply same_below_trans; eassumption)
+        | (split; reflexivity) ].
 
-Lemma same_below_refl c : same_below c c. Proof. split; reflexivity. Qed.
-Lemma same_below_trans a b c : same_below a b -> same_below b c -> same_below a c.
-Proof. intros [H1 H2] [H3 H4]. split; congruence. Qed.
+Lemma run_script_same_below E app clear script c : same_below c (fst (run_script E app clear script c)).
+Proof. apply (keeps_run_script same_below); sb_side. Qed.
+
+Lemma commit_same_below c c1 : same_below (child c) c1 -> same_below c (commit c1).
+Proof.
+  intros [Hp Hb]. cbn [child c_parents c_base] in Hp, Hb. unfold commit. rewrite Hp. split; [reflexivity | exact Hb].
+Qed.
+
+Ltac sb_all :=
+  first [ exact run_script_same_below
+        | (intros ? ? ? ?; apply commit_same_below; assumption)
+        | sb_side ].
 
 Lemma group_body_same_below E g lf c : same_below c (fst (group_body E g lf c)).
-Proof.
-  apply (keeps_group_body same_below same_below_refl same_below_trans); intros; split; reflexivity.
-Qed.
+Proof. apply (keeps_group_body same_below); sb_all. Qed.
 
 (* child_isolation: whatever a group does -- including everything done before a failing
    member -- happens in the child; dropping the child gives back exactly the evaluator's
@@ -85,13 +98,23 @@ Qed.
 
 (* the same for a single transaction and for Move: no write reaches below the current cow *)
 Lemma transaction_same_below E tx c : same_below c (fst (transaction E tx c)).
-Proof.
-  apply (keeps_transaction same_below same_below_refl same_below_trans); intros; split; reflexivity.
-Qed.
+Proof. apply (keeps_transaction same_below); sb_all. Qed.
 
 Lemma move_same_below E from to amt fr tr c : same_below c (fst (move E from to amt fr tr c)).
+Proof. apply (keeps_move same_below); sb_side. Qed.
+
+(* a program -- any script, whatever it does and however it ends -- writes to its calf only,
+   and StatefulEval returns the transaction's cow untouched unless the program approved *)
+Lemma stateful_eval_same_below E app clear script acc c : same_below c (fst (stateful_eval E app clear script acc c)).
+Proof. apply (keeps_stateful_eval same_below); sb_all. Qed.
+
+Lemma stateful_eval_not_approved E app clear script acc c c' r :
+  stateful_eval E app clear script acc c = (c', r) -> r <> Ok true -> c' = c.
 Proof.
-  apply (keeps_move same_below same_below_refl same_below_trans); intros; split; reflexivity.
+  unfold stateful_eval. pose proof (run_script_same_below E app clear script (child c)) as Hs.
+  destruct (run_script E app clear script (child c)) as [c1 [u|e]]; cbn [fst] in Hs.
+  - destruct acc; intros H Hr; inversion H; subst; [contradiction | now apply recycle_of_child].
+  - intros H _. inversion H. now apply recycle_of_child.
 Qed.
 
 (* ------------------------------------------------------------------ group_atomic *)
@@ -113,16 +136,30 @@ Qed.
 (* ------------------------------------------------------------------ what a group records *)
 (* txids / leases / txnCount of the current cow are only written by addTx *)
 Definition same_tx (c c' : cow) : Prop :=
-  l_txids (c_top c') = l_txids (c_top c) /\ l_leases (c_top c') = l_leases (c_top c) /\
-  l_txncount (c_top c') = l_txncount (c_top c).
+  l_txids (c_top c') = l_txids (c_top c) /\ l_leases (c_top c') = l_leases (c_top c).
 
 Lemma same_tx_refl c : same_tx c c. Proof. repeat split. Qed.
 Lemma same_tx_trans a b c : same_tx a b -> same_tx b c -> same_tx a c.
-Proof. intros (H1 & H2 & H3) (H4 & H5 & H6). repeat split; congruence. Qed.
+Proof. intros (H1 & H2) (H4 & H5). repeat split; congruence. Qed.
+
+Lemma merge_leases_nil p : merge_leases p [] = p. Proof. reflexivity. Qed.
+
+(* inner transactions are not recorded in Txids / Txleases: a committed calf adds none *)
+Lemma commit_same_tx c c1 : same_below (child c) c1 -> same_tx (child c) c1 -> same_tx c (commit c1).
+Proof.
+  intros [Hp Hb] [Ht Hl]. cbn [child c_parents c_base c_top layer0 l_txids l_leases] in *.
+  unfold commit. rewrite Hp. unfold same_tx. cbn [c_top merge_layer l_txids l_leases]. rewrite Ht, Hl, app_nil_r. split; reflexivity.
+Qed.
 
 Lemma apply_transaction_same_tx E tx ctr c : same_tx c (fst (apply_transaction E tx ctr c)).
 Proof.
-  apply (keeps_apply_transaction same_tx same_tx_refl same_tx_trans); intros; repeat split.
+  apply (keeps_apply_transaction same_tx);
+    first [ exact run_script_same_below
+          | exact commit_same_tx
+          | exact same_tx_refl
+          | exact same_tx_trans
+          | (intros c0 l' (H1 & H2 & H3 & H4); split; assumption)
+          | (intros; repeat split) ].
 Qed.
 
 (* the fee counter is only written by takeFee *)
@@ -147,8 +184,7 @@ Proof. destruct b; cbn [guard]; unfold ret, fail; intros H; inversion H; auto. Q
 
 Lemma transaction_records E tx c c' u :
   transaction E tx c = (c', Ok u) ->
-  l_txids (c_top c') = l_txids (c_top c) ++ [txrec tx] /\
-  l_txncount (c_top c') = (l_txncount (c_top c) + 1) mod 2 ^ 64.
+  l_txids (c_top c') = l_txids (c_top c) ++ [txrec tx].
 Proof.
   unfold transaction. intros H.
   apply bind_ok in H. destruct H as (c1 & [] & H1 & H).
@@ -174,8 +210,8 @@ Proof.
   assert (S3 : c3 = c2).
   { apply when_ok in H3. destruct H3 as [[_ H3]|[_ ->]]; [|reflexivity].
     unfold check_min_balance in H3. now inversion H3. }
-  subst c3. destruct (same_tx_trans _ _ _ S1 S2) as (T1 & T2 & T3).
-  unfold addtx. cbn [c_top set_top upd_tx l_txids l_txncount]. rewrite T1, T3. split; reflexivity.
+  subst c3. destruct (same_tx_trans _ _ _ S1 S2) as (T1 & T2).
+  unfold addtx. cbn [c_top set_top upd_tx l_txids l_txncount]. rewrite T1. reflexivity.
 Qed.
 
 Lemma group_loop_records E g0 multi txs c c' u :
@@ -189,7 +225,7 @@ Proof.
     apply bind_ok in H. destruct H as (c2 & [] & H2 & H).
     apply bind_ok in H. destruct H as (c3 & [] & H3 & H).
     apply guard_ok in H2. destruct H2 as [_ ->]. apply guard_ok in H3. destruct H3 as [_ ->].
-    apply IH in H. apply transaction_records in H1. destruct H1 as [H1 _].
+    apply IH in H. apply transaction_records in H1.
     rewrite H, H1, <- app_assoc. reflexivity.
 Qed.
 
@@ -211,11 +247,30 @@ Qed.
 (* okc is an invariant of everything a group does *)
 Definition ok_rel (c c' : cow) : Prop := okc c -> okc c'.
 
-Lemma group_body_okc E g lf c : okc c -> okc (fst (group_body E g lf c)).
+Lemma ukeys_merge_accts into from : ukeys into -> ukeys (merge_accts into from).
 Proof.
-  apply (keeps_group_body ok_rel); unfold ok_rel; auto.
-  - intros; now apply okc_put.
+  revert into. induction from as [|[k v] r IH]; intros into H; cbn [merge_accts]; [exact H|].
+  apply IH. now apply ukeys_aupsert.
 Qed.
+
+Lemma commit_okc c c1 : same_below (child c) c1 -> ok_rel (child c) c1 -> ok_rel c (commit c1).
+Proof.
+  intros [Hp Hb] _ Hok. cbn [child c_parents] in Hp. unfold okc, commit. rewrite Hp.
+  cbn [c_top merge_layer l_accts]. now apply ukeys_merge_accts.
+Qed.
+
+Ltac ok_side :=
+  first [ exact run_script_same_below
+        | exact commit_okc
+        | (unfold ok_rel; intros c0 l' (H1 & _) H; unfold okc in *; cbn [set_top c_top]; rewrite H1; exact H)
+        | (unfold ok_rel; intros; now apply okc_put)
+        | (unfold ok_rel; now auto) ].
+
+Lemma group_body_okc E g lf c : okc c -> okc (fst (group_body E g lf c)).
+Proof. apply (keeps_group_body ok_rel); ok_side. Qed.
+
+Lemma run_script_okc E app clear script c : okc c -> okc (fst (run_script E app clear script c)).
+Proof. apply (keeps_run_script ok_rel); ok_side. Qed.
 
 (* group_all: an accepted group leaves exactly the effects of ALL its members: the view of
    every account is the one the child had after the last member, the Payset and the
